@@ -321,6 +321,29 @@ func c03RunLine(e *c03Env, u *c03Universe, l *c03Line, n int64, seed int64, st *
 	return nil
 }
 
+// c03Sample renders one generated transition for the evidence file.
+func c03Sample(u *c03Universe, l *c03Line) string {
+	var rs []string
+	for _, id := range l.T {
+		pi, qi := (id-1)/u.NPath, (id-1)%u.NPath
+		if id < 1 || pi >= len(u.Pats) || qi >= len(u.Paths) {
+			return "?"
+		}
+		rs = append(rs, fmt.Sprintf("r%d=%s%s", id, u.Pats[pi].String(), strings.Join(u.Paths[qi], "")))
+	}
+	if l.H < 1 || l.H > len(u.Hosts) {
+		return "?"
+	}
+	var exp []string
+	for q, row := range l.W {
+		if q < len(u.RPaths) {
+			exp = append(exp, fmt.Sprintf("%s->%v", strings.Join(u.RPaths[q], ""), row))
+		}
+	}
+	return fmt.Sprintf("table {%s} host %s tls=%d expected route per path x [prefix/on prefix/off iprefix/on iprefix/off glob/on glob/off] (0 none, -1 not posed): %s",
+		strings.Join(rs, ", "), u.Hosts[l.H-1].String(), l.TLS, strings.Join(exp, " "))
+}
+
 func TestVerifC03(t *testing.T) {
 	seed := verifx.Seed()
 	type job struct {
@@ -379,7 +402,7 @@ func TestVerifC03(t *testing.T) {
 		seen[h] = true
 		n++
 		if l.X == nil && cur != nil && len(samples) < 4 && len(l.T) >= 2 && n%4001 == 17 {
-			samples = append(samples, string(raw))
+			samples = append(samples, c03Sample(cur, &l))
 		}
 		jobs <- job{cur, &l, n}
 		return nil
